@@ -24,7 +24,7 @@ ASSUMPTIONS = ["functools.update_wrapper copies __module__, __name__, __qualname
                "CPython's object.__new__/object.__init__ excess-argument rule as stated in Stack.lean (A-object_new)"]
 NEIGHBOURS = [{"from": "C19", "limit": 400, "why": "names only reserved when postconditions exist"},
               {"from": "C03", "limit": 400, "why": "member kinds keep their binding behaviour"},
-              {"from": "C18", "limit": 400, "why": "foreign wrappers"}]
+              {"from": "C18", "tags": ["hist"], "limit": 700, "why": "foreign wrappers"}]
 
 
 run_directed = directed.run
@@ -32,6 +32,8 @@ run_directed = directed.run
 
 def cases(tier, rng):
     thorough = tier == "thorough"
+    for c in directed.class_keyword_arguments_cases():
+        yield "directed-class-keyword-arguments", c
     for c in directed.sync_layer_over_coroutine_cases():
         yield "directed-sync-layer-over-coroutine", c
     for c in directed.keyword_named_self_cases():
